@@ -275,7 +275,7 @@ def all_kinds(spec, acc=None):
 
 def build(spec, fx=None, depth=0, inself=False):
   """Decode a value spec into a Python value. Total: never raises on malformed specs.
-  Inside a self-referential container nested self-reference is flattened and deep nesting is capped at 30
+  Inside a self-referential container nested self-reference is flattened and deep nesting is capped at 3
   levels (encoding such values costs depth**k steps: a cost problem, not a C24 question)."""
   if spec is None or isinstance(spec, (bool, int, float, str)):
     return spec
@@ -354,7 +354,7 @@ def build(spec, fx=None, depth=0, inself=False):
   if k == 'deep':
     n = abs(_int(spec.get('n'))) % 3001
     if inself:
-      n = n % 31
+      n = n % 4
     w = spec.get('w')
     return _deep(n, w if w in ('dict', 'tuple') else 'list', build(spec.get('leaf'), fx, depth + 1, inself))
   if k == 'hostile':
@@ -479,7 +479,7 @@ def source(spec, depth=0, inself=False):
   if k == 'deep':
     n = abs(_int(spec.get('n'))) % 3001
     if inself:
-      n = n % 31
+      n = n % 4
     w = spec.get('w')
     return '_deep(%d, %r, %s)' % (n, w if w in ('dict', 'tuple') else 'list', sub(spec.get('leaf')))
   if k == 'hostile':
